@@ -6,7 +6,10 @@ use std::pin::Pin;
 use std::task::{Context, Poll};
 
 use mpd_protocol::response::Response;
-use mpd_protocol::{AsyncConnection, Connection, MpdProtocolError};
+#[cfg(feature = "with_async")]
+use mpd_protocol::AsyncConnection;
+use mpd_protocol::{Connection, MpdProtocolError};
+#[cfg(feature = "with_async")]
 use tokio::io::{AsyncRead, ReadBuf};
 
 use crate::util::*;
@@ -93,6 +96,7 @@ impl io::Write for ChunkReader {
     }
 }
 
+#[cfg(feature = "with_async")]
 impl tokio::io::AsyncWrite for ChunkReader {
     fn poll_write(self: Pin<&mut Self>, _cx: &mut Context<'_>, buf: &[u8]) -> Poll<io::Result<usize>> {
         Poll::Ready(Ok(buf.len()))
@@ -113,6 +117,7 @@ impl Read for ChunkReader {
     }
 }
 
+#[cfg(feature = "with_async")]
 impl AsyncRead for ChunkReader {
     fn poll_read(mut self: Pin<&mut Self>, cx: &mut Context<'_>, buf: &mut ReadBuf<'_>) -> Poll<io::Result<()>> {
         if self.pending_mode && matches!(self.chunks.front(), Some(None)) {
@@ -290,6 +295,13 @@ fn run_bigbin(toks: &[&str]) -> String {
                 }
             }
         } else {
+            #[cfg(not(feature = "with_async"))]
+            {
+                let _ = reader;
+                return "skip no-async".into();
+            }
+            #[cfg(feature = "with_async")]
+            {
             let rt = tokio::runtime::Builder::new_current_thread().build().unwrap();
             let r: Result<(), String> = rt.block_on(async {
                 let mut conn = match AsyncConnection::connect(reader).await {
@@ -307,6 +319,7 @@ fn run_bigbin(toks: &[&str]) -> String {
             });
             if let Err(e) = r {
                 return e;
+            }
             }
         }
         out.join(" | ")
@@ -406,6 +419,13 @@ pub fn run(toks: &[&str]) -> String {
                 }
             }
         } else {
+            #[cfg(not(feature = "with_async"))]
+            {
+                let _ = reader;
+                return "skip no-async".into();
+            }
+            #[cfg(feature = "with_async")]
+            {
             let rt = tokio::runtime::Builder::new_current_thread().build().unwrap();
             let r: Result<(), String> = rt.block_on(async {
                 let mut conn = match AsyncConnection::connect(reader).await {
@@ -463,6 +483,7 @@ pub fn run(toks: &[&str]) -> String {
             });
             if let Err(e) = r {
                 return e;
+            }
             }
         }
         out.join(" | ")
